@@ -101,6 +101,45 @@ pub struct Verdict {
   pub incompatible_event: bool,
 }
 
+/// The offered QoS as the remote reader's participant learns it: through SEDP (PL_CDR) encode and decode.
+pub fn through_sedp_as_offer(q: &QosPolicies) -> QosPolicies {
+  use crate::{
+    discovery::sedp_messages::{DiscoveredWriterData, PublicationBuiltinTopicData, WriterProxy},
+    serialization::pl_cdr_adapters::{PlCdrDeserialize, PlCdrSerialize},
+    RepresentationIdentifier,
+  };
+  let g = guid(9, writer_eid(1));
+  let d = DiscoveredWriterData {
+    last_updated: std::time::Instant::now(),
+    writer_proxy: WriterProxy::new(g, vec![], vec![loc(9999)]),
+    publication_topic_data: PublicationBuiltinTopicData::new_with_qos(g, None, "qos_t".into(), "T".into(), q, None),
+  };
+  let b = d.to_pl_cdr_bytes(RepresentationIdentifier::PL_CDR_LE).expect("MACHINERY: cannot encode DiscoveredWriterData");
+  DiscoveredWriterData::from_pl_cdr_bytes(&b, RepresentationIdentifier::PL_CDR_LE)
+    .expect("MACHINERY: cannot decode own DiscoveredWriterData")
+    .publication_topic_data
+    .qos()
+}
+/// The requested QoS as the remote writer's participant learns it through SEDP.
+pub fn through_sedp_as_request(q: &QosPolicies) -> QosPolicies {
+  use crate::{
+    discovery::sedp_messages::{DiscoveredReaderData, ReaderProxy, SubscriptionBuiltinTopicData},
+    serialization::pl_cdr_adapters::{PlCdrDeserialize, PlCdrSerialize},
+    RepresentationIdentifier,
+  };
+  let g = guid(8, reader_eid(7));
+  let d = DiscoveredReaderData {
+    reader_proxy: ReaderProxy::new(g, false, vec![loc(8888)], vec![]),
+    subscription_topic_data: SubscriptionBuiltinTopicData::new(g, None, "qos_t".into(), "T".into(), q, None),
+    content_filter: None,
+  };
+  let b = d.to_pl_cdr_bytes(RepresentationIdentifier::PL_CDR_LE).expect("MACHINERY: cannot encode DiscoveredReaderData");
+  DiscoveredReaderData::from_pl_cdr_bytes(&b, RepresentationIdentifier::PL_CDR_LE)
+    .expect("MACHINERY: cannot decode own DiscoveredReaderData")
+    .subscription_topic_data
+    .qos()
+}
+
 /// The public API verdict.
 pub fn api_verdict(offered: &QSpec, requested: &QSpec) -> Option<String> {
   build(offered)
@@ -126,9 +165,10 @@ impl ReaderJudge {
     self.n = self.n.wrapping_add(1);
     let wg = guid(9, writer_eid(1));
     let r = self.kit.reader.as_mut().unwrap();
+    // the reader's participant knows the writer's QoS only through discovery
     r.update_writer_proxy(
       RtpsWriterProxy::new(wg, vec![loc(9999)], vec![], EntityId::UNKNOWN),
-      &build(offered),
+      &through_sedp_as_offer(&build(offered)),
     );
     let matched = r.verif_matched().contains(&wg);
     let (mut me, mut ie, mut cause) = (false, false, None);
@@ -164,7 +204,8 @@ impl WriterJudge {
   }
   pub fn judge(&mut self, requested: &QSpec) -> Verdict {
     let rg = guid(8, reader_eid(7));
-    let rq = build(requested);
+    // the writer's participant knows the reader's QoS only through discovery
+    let rq = through_sedp_as_request(&build(requested));
     let mut rp = RtpsReaderProxy::new(rg, rq.clone(), false);
     rp.unicast_locator_list = vec![loc(8888)];
     let w = &mut self.kit.writer;
